@@ -100,6 +100,105 @@ fn c14_active_t() {
     std::mem::forget(params);
 }
 
+// ---------------------------------------------------------------------------
+// Choice of the enclosing call under nesting: the REAL find_call_stmt_in_stmt on a statement tree
+//   { if (..) call }   and   { while (..) call }
+// with symbolic Reference offsets and call lengths (a three-call tree did not finish in 20 min); tokens are adjacent one-byte tokens, so a call
+// whose Reference chain sums to token index t and that is n tokens long covers text [t, t+n).
+// Asserted: if the cursor lies inside exactly one call, that call is returned together with the
+// accumulated offset of its Reference chain (which signature_help() then uses to slice the tokens);
+// if it lies in none, nothing is returned.
+// ---------------------------------------------------------------------------
+use spl_frontend::ast::{AstInfo, BlockStatement, Identifier, IfStatement, WhileStatement};
+
+fn call(len: usize) -> CallStatement {
+    CallStatement {
+        name: Identifier::new(String::new(), 0..1),
+        arguments: Vec::new(),
+        info: AstInfo::new(0..len),
+    }
+}
+
+fn toks8() -> std::mem::ManuallyDrop<[Token; 8]> {
+    std::mem::ManuallyDrop::new([
+        Token::new(TokenType::Semic, 0..1), Token::new(TokenType::Semic, 1..2), Token::new(TokenType::Semic, 2..3),
+        Token::new(TokenType::Semic, 3..4), Token::new(TokenType::Semic, 4..5), Token::new(TokenType::Semic, 5..6),
+        Token::new(TokenType::Semic, 6..7), Token::new(TokenType::Eof, 7..7),
+    ])
+}
+
+/// { if (..) call }  - a call two Reference levels below the procedure
+#[kani::proof]
+#[kani::unwind(3)]
+fn c14_enclosing_call_if() {
+    let toks = toks8();
+    let (base, a, b, n): (usize, usize, usize, usize) = (kani::any(), kani::any(), kani::any(), kani::any());
+    kani::assume(base <= 2 && a <= 2 && b <= 2 && n >= 1 && n <= 2);
+    let s = base + a + b;
+    kani::assume(s + n <= 7);
+    let cursor: usize = kani::any();
+    kani::assume(cursor <= 8);
+    let tree = std::mem::ManuallyDrop::new(Statement::Block(BlockStatement {
+        statements: vec![Reference::new(
+            Statement::If(IfStatement {
+                condition: None,
+                if_branch: Some(Box::new(Reference::new(Statement::Call(call(n)), b))),
+                else_branch: None,
+                info: AstInfo::new(0..1),
+            }),
+            a,
+        )],
+        info: AstInfo::new(0..1),
+    }));
+    let inside = s <= cursor && cursor < s + n;
+    kani::cover!(inside && base > 0 && a > 0 && b > 0, "cursor in the nested call, all offsets non-zero");
+    kani::cover!(!inside && cursor < 7, "cursor outside the call");
+    let got = find_call_stmt_in_stmt(&tree, &cursor, base, &toks[..]);
+    match got {
+        Some((c, off)) => {
+            assert!(inside, "C14 a call is reported although the cursor is not inside it");
+            assert!(off == s, "C14 accumulated Reference offset of the enclosing call is wrong");
+            assert!(c.info.range.len() == n);
+        }
+        None => assert!(!inside, "C14 the call containing the cursor is not found"),
+    }
+}
+
+/// { while (..) call }  (a block with two statements did not finish in 12 min)
+#[kani::proof]
+#[kani::unwind(3)]
+fn c14_enclosing_call_while() {
+    let toks = toks8();
+    let (base, a, b, n): (usize, usize, usize, usize) = (kani::any(), kani::any(), kani::any(), kani::any());
+    kani::assume(base <= 2 && a <= 2 && b <= 2 && n >= 1 && n <= 2);
+    let s = base + a + b;
+    kani::assume(s + n <= 7);
+    let cursor: usize = kani::any();
+    kani::assume(cursor <= 8);
+    let tree = std::mem::ManuallyDrop::new(Statement::Block(BlockStatement {
+        statements: vec![Reference::new(
+            Statement::While(WhileStatement {
+                condition: None,
+                statement: Some(Box::new(Reference::new(Statement::Call(call(n)), b))),
+                info: AstInfo::new(0..1),
+            }),
+            a,
+        )],
+        info: AstInfo::new(0..1),
+    }));
+    let inside = s <= cursor && cursor < s + n;
+    kani::cover!(inside && base > 0 && b > 0, "cursor in the call inside the loop");
+    let got = find_call_stmt_in_stmt(&tree, &cursor, base, &toks[..]);
+    match got {
+        Some((c, off)) => {
+            assert!(inside, "C14 a call is reported although the cursor is not inside it");
+            assert!(off == s, "C14 accumulated Reference offset of the enclosing call is wrong");
+            assert!(c.info.range.len() == n);
+        }
+        None => assert!(!inside, "C14 the call containing the cursor is not found"),
+    }
+}
+
 #[kani::proof]
 #[kani::unwind(6)]
 fn c14_twin_must_fail() {
